@@ -5,7 +5,7 @@
 (* nulling, retyping, renaming (case) or duplicating a member, by changing *)
 (* the op name, the element type or the root type.                         *)
 (***************************************************************************)
-EXTENDS DecodePatch, Json, TLC
+EXTENDS DecodePatch, JsonEnc, JsonText, Json, TLC
 
 CONSTANTS EmitOn, Pairs      \* Pairs >= 1: also two-element documents [valid, mutated] and [mutated, valid]; 2: double mutations
 
@@ -52,12 +52,12 @@ Mut(o) ==
   \cup { Obj(Append(o.m, Mem(<<101,120,116,114,97>>, N1))) }
 
 Good == CHOOSE o \in Base : o.m[1].v = Str(sRemove)
-Elems == Base \cup UNION { Mut(o) : o \in Base } \cup { Null, N1, SX, Arr(<<>>), Bool(FALSE) }
+ElemSet == Base \cup UNION { Mut(o) : o \in Base } \cup { Null, N1, SX, Arr(<<>>), Bool(FALSE) }
 Docs ==
-     { Arr(<<e>>) : e \in Elems }
+     { Arr(<<e>>) : e \in ElemSet }
   \cup { Arr(<<>>) }
   \cup { Obj(<<>>), SX, N1, Bool(TRUE), Good }                           \* non-array roots
-  \cup (IF Pairs >= 1 THEN { Arr(<<Good, e>>) : e \in Elems } \cup { Arr(<<e, Good>>) : e \in Elems } ELSE {})
+  \cup (IF Pairs >= 1 THEN { Arr(<<Good, e>>) : e \in ElemSet } \cup { Arr(<<e, Good>>) : e \in ElemSet } ELSE {})
   \cup (IF Pairs >= 2 THEN { Arr(<<e>>) : e \in UNION { Mut(o) : o \in UNION { Mut(b) : b \in Base } } } ELSE {})
 
 VARIABLES pd, verdict
@@ -66,9 +66,18 @@ DInit == pd \in Docs /\ verdict = "?"
 DNext == verdict = "?" /\ verdict' = (IF Accepts(pd) THEN "accept" ELSE "reject") /\ UNCHANGED pd
 DSpec == DInit /\ [][DNext]_dvars
 
+\* byte-level neighbours of the document's text: trailing data, a second value, a truncation, surrounding
+\* white space; the grammar (JsonText) and Accepts decide each
+TextVerdict(b) == LET p == ParseText(b) IN [w |-> b, accept |-> p.ok /\ Accepts(p.v)]
+TextMutants ==
+  LET t == Enc(pd, FALSE) IN
+  << TextVerdict(t \o <<93>>), TextVerdict(t \o <<32, 120>>), TextVerdict(t \o t), TextVerdict(t \o <<44>>),
+     TextVerdict(SubSeq(t, 1, Len(t) - 1)), TextVerdict(<<32, 10>> \o t \o <<9, 13>>), TextVerdict(t \o <<0>>) >>
+TextSelfCheck == ParseText(Enc(pd, FALSE)) = [ok |-> TRUE, v |-> pd]
+
 Emit ==
   IF EmitOn THEN
-    PrintT(ToJson([fam |-> "decode", patch |-> pd, accept |-> Accepts(pd),
+    PrintT(ToJson([fam |-> "decode", patch |-> pd, accept |-> Accepts(pd), texts |-> TextMutants,
                    acc |-> IF Accepts(pd) THEN [i \in 1..Len(pd.e) |-> Accessors(pd.e[i])] ELSE <<>>]))
   ELSE TRUE
 
